@@ -283,7 +283,7 @@ func (r *c19Run) restart(op c19Op, first bool) {
 	r.cli.mu.Unlock()
 	o.At = r.now()
 	ctx, cancel := context.WithTimeout(context.Background(), time.Minute)
-	st, err := setec.NewStore(ctx, setec.StoreConfig{
+	st, err := newStoreReleased(ctx, setec.StoreConfig{
 		Client: r.cli, Secrets: append([]string(nil), op.Names...), AllowLookup: op.Allow, Cache: r.cache,
 		ExpiryAge: time.Duration(op.AgeS) * time.Second, PollTicker: c19Ticker{ch: make(chan time.Time)},
 		Logf: func(string, ...any) {},
